@@ -29,8 +29,10 @@ chk("C14", "static analysis: MIR delegation rules and one-step protocol decision
     "(old remainder, argument), Some/None mapped to Ok/Err with the method's ErrorKind (10 rows); the five split methods are "
     "compared as one-step decision tables over (exhausted flag, remainder empty, split_once/find Some/None) with the protocol "
     "in the property text, including what is yielded, the new remainder and the new flag; only those five may write the flag; "
-    "the 13 StdParser::parse_with impls must return the matching parse_* call. Covers all strings/patterns symbolically.",
-    "Trusted: rustc MIR. The results of the string functions themselves are C04/C05/C12; histories follow by induction over "
+    "the 13 StdParser::parse_with impls must return the matching parse_* call; the integer/bool prefix parse (which has no free "
+    "function to delegate to) is decided on the Parser::parse_* bodies with C12's rule set (sign byte, digit classes, multiply-add "
+    "recurrence with both overflow exits, sign/limit table, consumed length, bool spellings). Covers all strings/patterns symbolically.",
+    "Trusted: rustc MIR. The results of the string functions themselves are C04/C05; histories follow by induction over "
     "the one-step tables (written argument, DESIGN.md App. D).")
 chk("C16", "static analysis: MIR decision tables vs Ord/PartialEq, lexicographic-placement rule, loop-exit tables with derived counter invariant",
     "Every cmp_*/eq_*/const_cmp/const_eq function (about 400: scalars, NonZero, bool, char, Ordering, ranges, Options, "
@@ -40,9 +42,9 @@ chk("C16", "static analysis: MIR decision tables vs Ord/PartialEq, lexicographic
     "lengths; counter starts at 0, +1, guarded) must be lexicographic; equality loops likewise; U8Ordering constants/mapping. "
     "Symbolic in all values, so it covers the pairs tests cannot enumerate.",
     "Trusted: rustc MIR; the step from one-iteration tables to the whole loop is the standard induction on the counter "
-    "(premises checked: init 0, +1, guard). The macros (const_cmp_for!/const_eq_for! option and slice arms in all four "
+    "(premises checked: init 0, +1, guard). The macros (const_cmp_for!/const_eq_for! option, slice, range and range_inclusive arms in all four "
     "comparator forms, const_cmp!/const_eq! on each supported type, assertc_eq!/assertc_ne!) are expanded in a witness crate "
-    "(37 + 6 witnesses) and decided by the same tables (TAB-MACRO, TAB-ASSERT: returns exactly when the relation holds).")
+    "(45 + 6 witnesses, incl. the range and range_inclusive arms of const_eq_for!) and decided by the same tables (TAB-MACRO, TAB-ASSERT: returns exactly when the relation holds).")
 chk("C05", "static analysis: exact byte-set computation, MIR iteration decision tables, delegation rules",
     "The byte set removed by the whitespace trimmers is computed exactly from the loop's continue condition and must equal "
     "u8::is_ascii_whitespace; the strip_prefix/strip_suffix loops and the two-level trim_*_matches loops are compared as "
@@ -56,7 +58,8 @@ chk("C04", "static analysis: matcher restart-completeness lint, scan-completenes
     "pattern is reset to the needle on a mismatch while the haystack cursor never rewinds (necessarily incomplete for needles "
     "with borders - this reported the original defect); a candidate-offset search is accepted only if its iteration table is "
     "a complete scan (starts at the extreme offset, moves by one, exits only on 'prefix test hit -> Some(offset)' or "
-    "'candidates exhausted -> None', hit test = the C05 prefix test on the haystack sliced at the candidate). The skip/keep "
+    "'candidates exhausted -> None', hit test = the C05 prefix test on the haystack sliced at the candidate; an empty pattern in forward search hits at the "
+    "first candidate or leaves through an explicit `Some(0)`). The skip/keep "
     "forms must be find/rfind composed with slice_from/slice_up_to at pos / pos+len, split_once/rsplit_once are decided as "
     "tables, and 16 delegation rows tie the public str/bytes functions (all four pattern kinds) to the matchers.",
     "Trusted: rustc MIR; C05's prefix test. A matcher of any other shape (e.g. KMP) is not decided: the SCAN floor then fails "
@@ -65,7 +68,8 @@ chk("C12", "static analysis: exact byte classes from MIR branch conditions, recu
     "For the 12 integer parsers: the only byte consumed before the first digit is '-' (signed) or nothing (so '+' is never "
     "accepted), first-digit and loop-digit classes are exactly 30-39, the accumulator recurrence is num*10+(byte-'0') in the "
     "unsigned twin with both overflow flags reaching Err(ParseInteger), the loop-exit table per type is "
-    "(negative: n<=|MIN| -> wrapping_neg, positive: n<=MAX, unsigned: n) with the limits computed from the type width, and "
+    "(negative: n<=|MIN| -> wrapping_neg, positive: n<=MAX, unsigned: n) with the limits computed from the type width (a sign "
+    "test on the accumulator reinterpreted in the signed type is read as the range of the accumulator it denotes), and "
     "the new remainder is str_from(old, len(old)-len(unparsed)). parse_bool must spell exactly true/false and skip their "
     "lengths; the 13 whole-string wrappers return Ok only when the parser succeeded with an empty remainder. Symbolic in the "
     "input, so every string and every width is covered.",
@@ -74,7 +78,8 @@ chk("C09", "static analysis: per-type MIR step tables, one-step iterator decisio
     "increment/decrement are decided per Step type (12 integer arms + char): finished flags = start>end / start>=end, next = "
     "start+1 / end-1 with the overflow flag of that very operation, char arm as a decision table over the value classes of the stepped scalar x every other condition it branches on (D7FF<->E000 "
     "jump, 10FFFF/0 overflow, +-1 otherwise); "
-    "the next/next_back of RangeIter, RangeInclusiveIter, RangeFromIter are compared as one-step tables (yielded value, new "
+    "for_range! is decided on witness expansions for five integer types (cursor starts at `start`, body runs under "
+    "cursor < end with the pre-increment value, +1 per round, exit on end <= cursor); the next/next_back of RangeIter, RangeInclusiveIter, RangeFromIter are compared as one-step tables (yielded value, new "
     "(start,end), the (MAX,MIN) exhausted encoding) with std's range step relation; the Rev types must be the forward types "
     "stepping from the other end; MIN_VAL/MAX_VAL of all 13 types; const_into_iter field mapping. Symbolic in the bounds, so "
     "all pairs of every width are covered.",
@@ -93,8 +98,9 @@ chk("C06", "static analysis: one-step MIR transition tables vs std's SplitIntern
     "Split::next/next_back, SplitTerminator::next and RSplitTerminator::next are compared as one-step transition tables over "
     "(state Normal/Empty(Start)/Empty(Continue)/Finished, remainder empty, find/rfind Some/None) with std's split step "
     "(yielded piece, new remainder around the delimiter, new state; empty-delimiter mode char by char; the documented "
-    "mirrored rule for rsplit_terminator); RSplit must be Split stepping from the other end; constructors must pick "
-    "Empty(Start) exactly for an empty delimiter; rsplit = split.rev(), rsplit_terminator copies split_terminator's fields, "
+    "mirrored rule for rsplit_terminator); RSplit must be Split stepping from the other end; constructors are a decision table over (delimiter empty, input "
+    "empty): Empty(Start) exactly for an empty delimiter, else Normal with the normalised pattern (or, for an empty input, the state "
+    "that takes the same single step); rsplit = split.rev(), rsplit_terminator copies split_terminator's fields, "
     "remainder() returns the remainder field. Symbolic in string and delimiter.",
     "Trusted: rustc MIR; find/rfind return Some only when the needle fits in the haystack (C04). The sequence of pieces follows from the one-step tables by the simulation argument in DESIGN.md "
     "App. D (not mechanised); find/rfind are C04, the boundary search is C07.")
@@ -125,13 +131,14 @@ chk("C19", "static analysis: MIR decision tables of macro expansions in a witnes
     "so results hold for every closure. The accept family is sampled per arity in the quick tier (uniform + mixed kinds).",
     cat="other")
 chk("C17", "static analysis: compile-reject / compile-accept witness programs with matched diagnostics, compile_error! inventory",
-    "A generated family of about 105 reject programs, each with an accept twin differing only in the offending element, is compiled "
+    "A generated family of about 145 reject programs, each with an accept twin differing only in the offending element, is compiled "
     "by the real stable rustc against the current konst: destructure! x {Drop type (braced/tuple struct, generic, path/type "
     "form, +-annotation), reference ({&, &mut} x 10 shapes incl. generic type-form / turbofish / self:: paths x +-annotation), "
     "wrong field/element count (6 shapes), `..` rest (3 shapes)}, "
     "iterator DSL x {double reversal for every reverser and all three macros, unknown methods, consumer in adapter-only "
     "macro, arguments to argument-less methods, argument-shape guards}, parser_method! x {non-literal pattern for all six "
-    "methods incl. a const/variable/nested macro hidden inside concat!(..), missing default, branch after default, unknown method}. A reject must fail with the guard's own diagnostic "
+    "methods incl. a const/variable/nested macro hidden inside concat!(..) and patterns that begin with or wrap a string literal "
+    "(range patterns, bindings, references, parentheses - the range forms were accepted by the pinned tree: F9, fixed), missing default, branch after default, unknown method}. A reject must fail with the guard's own diagnostic "
     "(code / message / guard macro in the expansion back-trace), the twin must compile. Every compile_error! arm of the six "
     "anchored macro files must be hit by the family or be listed as a shadowed fall-back with the reason.",
     "Trusted: rustc's accept/reject verdict (that is the property). The family is finite; shapes outside it (deeper nesting, "
@@ -139,22 +146,26 @@ chk("C17", "static analysis: compile-reject / compile-accept witness programs wi
     cat="exploration")
 chk("C18", "static analysis: translation validation of macro expansions against rustc's own literal bytes (HIR), MIR table/shape rules",
     "Generated literal sets (every escape kind, \\x and \\u{} forms incl. underscores, line continuations incl. blank lines/CRLF/"
-    "NBSP, raw strings with 0-2 hashes, multi-byte text, empty, concat!, stringify!; plus seeded random literals) are put in "
+    "NBSP, raw strings with 0-2 hashes, multi-byte text, empty, concat! flat and nested to depth 3 with empty and trailing-comma forms, "
+    "stringify!; plus seeded random literals incl. nested concat!) are put in "
     "witness crates both as parser_method!'s argument and as a plain constant; after rustc expands the proc macro, the byte "
     "list of the slice pattern it produced (HIR) must equal rustc's own unescaped bytes of the twin literal, in the prefix "
-    "form [bytes.., rem @ ..] and the suffix form [rem @ .., bytes..]; a valid literal the macro rejects is a violation. "
+    "form [bytes.., rem @ ..] and the suffix form [rem @ .., bytes..]; a valid literal the macro rejects is a violation; with the literal placed among other alternatives (`LIT | \"zz\" => .., \"q\" | LIT "
+    "=> ..`) the pattern list of the expansion must be exactly those four byte strings in order. "
     "The escape table and the line-continuation arm are read from the proc-macro crate's MIR; the strip/find/trim "
     "expansions are checked structurally, for every way of writing the branches (`=> expr,`, comma-less blocks, a block in the "
     "middle, blocks with commas) (arms in listed order, one-byte drop from the scanning end, empty match breaks the "
-    "trim loop, parser advanced by skip/skip_back of len(remainder)-len(rest), default branch leaves the parser unchanged).",
+    "trim loop, parser advanced by skip/skip_back of len(remainder)-len(rest) on every way out of a trim form, default branch leaves "
+    "the parser unchanged).",
     "rustc runs the proc macro while expanding the witness (the one place where a konst component executes, inside the "
-    "compiler); no konst runtime function is called. The literal family is finite (68 quick / 400+ thorough).",
+    "compiler); no konst runtime function is called. The literal family is finite (76 quick / 450+ thorough).",
     cat="translation_validation")
 chk("C20", "static analysis: MIR scan/walk templates, decision tables, loop relations and length-term rules; witness expansion structure",
     "CStr: the nul scan is a counted loop from 0 returning Ok{bytes[..i+1], i+1} at the first zero byte and Err when the "
     "slice is exhausted; from_bytes_until_nul / from_bytes_with_nul are tables (Ok exactly when the first nul is the last "
-    "byte, payload = that CStr); to_bytes_with_nul is the walk to the first terminator returning i+1 bytes, to_bytes drops "
-    "exactly the last byte, to_str is the checked from_utf8. Concat/join: the length functions are the terms "
+    "byte, payload = that CStr); to_bytes_with_nul is the walk to the first terminator returning i+1 bytes, to_bytes is the view "
+    "w[..len-1] of that slice in any spelling (a panicking path must contradict `non-empty, last byte 0`), to_str is the checked "
+    "from_utf8 of that view with Ok/Err passed on. Concat/join: the length functions are the terms "
     "sum(len(piece_i)) [+ sep.len()*(n-1), 0 if empty]; every fill loop copies piece[j] to out[cursor] with one shared "
     "cursor advanced by one and bounds-checked stores; join writes first,(sep,piece)*; __ElemDispatch/__SepArg len agree with "
     "the bytes they produce per kind; ArrayStr::as_str re-validates; in the macro expansions LEN and the bytes are computed "
@@ -164,14 +175,16 @@ chk("C20", "static analysis: MIR scan/walk templates, decision tables, loop rela
 chk("C11", "static analysis: MaybeUninit init-typestate (path coverage on the pruned CFG) over macro expansions in a witness crate, protocol rules for ArrayBuilder",
     "array::map!, from_fn! (typed and untyped), map_!, from_fn_!, collect_const! (plain, filter, flat_map, skip/take) and "
     "string::from_iter! (str and char items) are expanded in a witness crate, also with closures containing break, "
-    "continue, return, panic! and a labelled break. For every assume_init site the rule requires: dominated by the true edge "
-    "of counter == LEN; for every increment of the counter, every path (on the CFG pruned by the BuildArray/ComputeLength "
+    "continue, return, panic! and a labelled break, and array::map! also on a user type that derefs to an array and has a len() of "
+    "its own. For every assume_init site the rule requires: dominated by the true edge "
+    "of counter == LEN with LEN the length of the MaybeUninit array itself; for every increment of the counter, every path (on the CFG pruned by the BuildArray/ComputeLength "
     "discriminant) from reading the counter through the increment to the next iteration or to assume_init executes a "
-    "MaybeUninit::new store at the pre-increment index, or a copy loop covers a variable step; no other writer of "
+    "MaybeUninit::new store at the pre-increment index, or a copy loop covers a variable step, or the counting argument applies "
+    "(each increment preceded by its own checked store at a strictly advancing cursor: N counted stores hit N different slots); no other writer of "
     "the counter - so no control flow in a closure can reach assume_init with an unwritten slot. Element i must be the closure "
     "applied to input i; ArrayBuilder push/build/new/as_slice follow the inited protocol (a panicking path of push must leave "
-    "`inited` untouched: the builder outlives the panic) and only new/push/copies write "
-    "`inited`; map_! forgets the consumer only after next() returned None and then builds; both collect_const passes call the "
+    "`inited` untouched: the builder outlives the panic), Clone pushes the clone of every element of as_slice() once, in order, "
+    "into a fresh builder, and only new/push/copies write `inited`; map_! forgets the consumer only after next() returned None and then builds; both collect_const passes call the "
     "same generated function and count identically.",
     "Trusted: rustc MIR and macro expansion; macro hygiene keeps the counter/array unnameable from user tokens. Values "
     "computed by user closures are opaque (marker functions).")
@@ -180,14 +193,18 @@ chk("C15", "static analysis: linear-use analysis of macro expansions in a witnes
     "struct, a struct with ZST fields, tuples of arity 1,2,3,5,8,16, a tuple with `_`, and arrays (all elements, prefix+rest+"
     "suffix, rest only, prefix+rest, rest+suffix, `_`, `..`): in the MIR the value must be moved into ManuallyDrop exactly once "
     "and never dropped as a whole, each field/element read exactly once from a distinct projection/offset of that one pointer "
-    "in pattern order (array offsets must tile the array: 1 per element, rest length per rest part), packed fields with "
+    "in pattern order (array offsets must tile the array: 1 per element, rest length per rest part), a `_`/`..` part's value is "
+    "dropped right away, packed fields with "
     "read_unaligned, and the bound values returned are exactly those reads. ArrayConsumer: next/next_back read "
     "array[taken_front] / array[N-taken_back-1] only when the live range is non-empty and advance only their counter; "
     "as_slice/as_mut_slice/Drop cover exactly [taken_front, N-taken_back); new/empty establish the invariant; "
-    "assert_is_empty forgets only an empty consumer; only new/empty/next/next_back/clone/copy write the counters; "
+    "assert_is_empty forgets only an empty consumer; only new/empty/next/next_back/clone/copy write the counters; a panicking path of next/next_back leaves them as they were; in "
+    "Clone the balance (slots written) - (slots newly covered by a counter update) is never negative where a call can unwind into "
+    "the drop of the half-built clone, and zero after every round; "
     "ArrayBuilder's Drop covers [0,inited). Exactly-once then follows from the range invariant by induction over operations.",
     "Trusted: rustc MIR/expansion; rustc's exhaustive-pattern check for the field set; the by-value map protocol is C11's BYVAL "
-    "rule. Unwinding paths (cleanup blocks) are not analysed.")
+    "rule. Of the unwinding paths only what the rules above name is analysed (state left behind for Drop); cleanup blocks are "
+    "otherwise not walked.")
 chk("C01", "static analysis: unsafe-operation inventory from MIR against an obligation table, path-condition proofs, provenance analysis, re-run of the owning rule sets",
     "Every operation that needs `unsafe` (unsafe-fn call, raw deref, union read, transmute) in konst_kernel and konst "
     "(configs FULL and DEBUG, +MIN in thorough) and in the witness expansions of the 8 macros whose transcribers contain "
@@ -196,7 +213,8 @@ chk("C01", "static analysis: unsafe-operation inventory from MIR against an obli
     "disjoint halves for split_at_mut); every bytes->str conversion by provenance (sub-range of the input's bytes) plus its "
     "justification (boundary test on the very index cut / whole-pattern cutter on the normalised pattern / ASCII trimmers / "
     "encoder output); the other schemas by re-running the owning rules here (chunk and array casts, from_u32 scalar set, "
-    "UTF-8 encoder/decoder bits, CStr scan/walk, ArrayBuilder/ArrayConsumer protocols and drop ranges, INIT typestate and "
+    "UTF-8 encoder/decoder bits, CStr scan/walk, ArrayBuilder/ArrayConsumer protocols and drop ranges, INIT typestate (incl. the "
+    "length obligation and the counting argument) and "
     "linear-use of the macro expansions). Sub-range clause: D1 provenance of all 139 safe pub fns returning slices/strs must "
     "root in a parameter or the static empty slice.",
     "Trusted: rustc MIR; documented safety contracts of the std callees; repr(transparent)/MaybeUninit layout facts; the &CStr "
